@@ -596,24 +596,6 @@ func (c *Ctx) discoverWrites(s *State, body func(s *State)) (map[*types.Var]bool
 }
 
 func (c *Ctx) havocWrites(s *State, wv map[*types.Var]bool, wh map[string]bool) {
-	var vs []*types.Var
-	for v := range wv {
-		vs = append(vs, v)
-	}
-	sort.Slice(vs, func(i, j int) bool { return vs[i].Pos() < vs[j].Pos() })
-	for _, v := range vs {
-		if _, declared := s.vars[v]; !declared {
-			continue // declared inside the loop
-		}
-		if c.boxed(v) {
-			continue // contents live in the heap (havocked through the heap key)
-		}
-		s.vars[v] = c.freshValue(s, v.Name(), v.Type())
-		c.assumeTyped(s, s.vars[v], v.Type()) // whatever the variable holds at the loop head was allocated before
-		if s.wvars != nil {
-			s.wvars[v] = true
-		}
-	}
 	var ks []string
 	for k := range wh {
 		ks = append(ks, k)
@@ -654,6 +636,26 @@ func (c *Ctx) havocWrites(s *State, wv map[*types.Var]bool, wh map[string]bool) 
 				continue
 			}
 			c.heapHavoc(s, k, c.heapSort(k))
+		}
+	}
+	// variables last: what a variable holds at the loop head exists at the loop head - with respect to the allocation
+	// set as it is there (an object allocated by an earlier iteration is not in the set the loop was entered with)
+	var vs []*types.Var
+	for v := range wv {
+		vs = append(vs, v)
+	}
+	sort.Slice(vs, func(i, j int) bool { return vs[i].Pos() < vs[j].Pos() })
+	for _, v := range vs {
+		if _, declared := s.vars[v]; !declared {
+			continue // declared inside the loop
+		}
+		if c.boxed(v) {
+			continue // contents live in the heap (havocked through the heap key)
+		}
+		s.vars[v] = c.freshValue(s, v.Name(), v.Type())
+		c.assumeTyped(s, s.vars[v], v.Type()) // whatever the variable holds at the loop head was allocated before
+		if s.wvars != nil {
+			s.wvars[v] = true
 		}
 	}
 }
@@ -1080,6 +1082,41 @@ func (c *Ctx) execSelect(x *ast.SelectStmt, s *State) []Exit {
 			st = s.clone()
 		}
 		c.eng.selectChoice(c, st, x, i)
+		if cc.Comm == nil {
+			// default is taken only when no other case can proceed: a receive from a closed channel (or from the Done
+			// channel of a finished context) can always proceed, so in this branch those channels are still open
+			for _, other := range x.Body.List {
+				oc := other.(*ast.CommClause)
+				if oc.Comm == nil {
+					continue
+				}
+				var rx *ast.UnaryExpr
+				switch cm := oc.Comm.(type) {
+				case *ast.ExprStmt:
+					rx, _ = unparen(cm.X).(*ast.UnaryExpr)
+				case *ast.AssignStmt:
+					if len(cm.Rhs) == 1 {
+						rx, _ = unparen(cm.Rhs[0]).(*ast.UnaryExpr)
+					}
+				}
+				if rx == nil || rx.Op != token.ARROW {
+					continue
+				}
+				if call, ok := unparen(rx.X).(*ast.CallExpr); ok {
+					if se, ok := unparen(call.Fun).(*ast.SelectorExpr); ok {
+						if fn, ok := c.info().Uses[se.Sel].(*types.Func); ok && funcKey(fn) == "context.Context.Done" {
+							ctx := asInt(c.eval(se.X, st))
+							st.assume(eq(sel(c.heapGet(st, "X.ctxdone", sA1), ctx), "0"))
+							continue
+						}
+					}
+					continue // other calls yielding channels (timers): nothing known
+				}
+				ch := asInt(c.eval(rx.X, st))
+				st.assume(not(eq(sel(c.heapGet(st, "X.closed", sA1), ch), "1")))
+			}
+			c.note("select: the default branch is taken only if no receive case could proceed (closed channels and finished contexts are always ready)")
+		}
 		if cc.Comm != nil {
 			switch cm := cc.Comm.(type) {
 			case *ast.SendStmt:
